@@ -199,9 +199,16 @@ func (x *c20SX) compare(op token.Token, a, b c20V, st *c20St, at ast.Node) []c20
 		case c20kIn:
 			return x.forkAtom(st, "nil:"+a.h.key(), neg)
 		}
+	case a.k == c20kStr && b.k == c20kStr && eqOp && (a.id != 0 && len(a.sym) == 0 && b.id == 0 && b.sym.render(nil) == "" || b.id != 0 && len(b.sym) == 0 && a.id == 0 && a.sym.render(nil) == ""):
+		// a string built up by the enclosing id loop, nothing added yet in this iteration, compared with ""
+		return x.forkAtom(st, fmt.Sprintf("notfirst:#%d", a.id+b.id), op == token.EQL)
 	case a.k == c20kStr && b.k == c20kStr && eqOp:
 		if c20IsConstLike(a) {
 			return known((a.sym.render(nil) == b.sym.render(nil)) == (op == token.EQL))
+		}
+		if b.sym.render(nil) == "" && a.id != 0 && len(a.sym) == 0 {
+			// a string built up by the enclosing id loop, nothing added yet in this iteration
+			return x.forkAtom(st, fmt.Sprintf("notfirst:#%d", a.id), op == token.EQL)
 		}
 		if b.sym.render(nil) == "" {
 			ne, h := c20NonEmptySym(a.sym)
@@ -219,6 +226,8 @@ func (x *c20SX) compare(op token.Token, a, b c20V, st *c20St, at ast.Node) []c20
 		case c20kStr:
 			ne, h := c20NonEmptySym(base.sym)
 			switch {
+			case em != 0 && base.id != 0 && len(base.sym) == 0:
+				return x.forkAtom(st, fmt.Sprintf("notfirst:#%d", base.id), em == -1)
 			case em == 0:
 			case ne == 1 || ne == -1:
 				return known((ne == 1) == (em == 1))
